@@ -157,6 +157,10 @@ def validate(ctx, runs, par, label):
             continue
         rejected.append(i)
     for i in rejected:
+        if bad >= 6:      # enough located; keep the failure path bounded (the verdict is already 1)
+            ctx.violation("Telemetry_Trace: a shard of recorded runs is rejected (runs not separated)", [ln for r in shards[i] for ln in r])
+            bad += 1
+            continue
         # find the rejected run(s) of the shard, then the first unexplained line of each
         def one(j):
             out, res = tlc_trace(ctx, "%s-l1-%d-%d" % (label, i, j), [shards[i][j]], "TraceSpec", "Report")
@@ -167,8 +171,12 @@ def validate(ctx, runs, par, label):
         ctx.cov["traces_validated_against_impl"] += len(shards[i]) - len(failing)
         if not failing:
             raise vf.Infra("shard %d rejected as a whole but every run of it accepted alone" % i)
-        for j in failing:
+        for n_diag, j in enumerate(failing):
             run = shards[i][j]
+            if n_diag >= 2 or bad >= 6:      # keep the failure path bounded: the verdict is already 1
+                ctx.violation("Telemetry_Trace: recorded run is not a behaviour of Telemetry (point not located)", run)
+                bad += 1
+                continue
             hw, ok = high_water(ctx, "%s-hw-%d-%d" % (label, i, j), run)
             if ok:
                 raise vf.Infra("run rejected, then accepted on re-validation (nondeterministic TLC?)")
@@ -276,6 +284,8 @@ def run(ctx):
     for lab, env in batches:
         outp = os.path.join(ctx.tmp, "trace-%s.ndjson" % lab)
         env = dict(env, VF_OUT=outp, VF_SEED=ctx.seed)
+        if os.environ.get("C28_GOMAXPROCS"):   # development knob: force one GOMAXPROCS for every run
+            env["VF_GOMAXPROCS"] = os.environ["C28_GOMAXPROCS"]
         vf.run_driver(ctx, binp, "TestVerifTelemetryRun", env=env, timeout=1500)
         runs += split_runs(vf.read_lines(outp))
     if len(runs) < nruns:
